@@ -170,3 +170,14 @@ Theorem f9h_other_order_rejects : exists p, cycle_check 100 f9h_ind [0; 1; 2; 3;
 Proof. eexists. vm_compute. reflexivity. Qed.
 Lemma f9h_builds : exists t, f9h_build = BOk t /\ t_indel t = f9h_ind.
 Proof. eexists. split; [vm_compute; reflexivity|]. vm_compute. reflexivity. Qed.
+
+(* ---- known finding F9: the closure ends in update_min's assertion (witness of known_findings.json F9) ---- *)
+Definition f9_flags (w : bool) : cflags := mkF true true true false true 0 w w true.
+Definition f9_conns : list conn :=
+  [mkConn 0 4 2 0 (f9_flags false) false 0; mkConn 4 1 2 0 (f9_flags false) false 0; mkConn 1 3 2 0 (f9_flags true) false 7;
+   mkConn 3 2 2 0 (f9_flags true) false 7; mkConn 0 2 2 0 (f9_flags true) false 7].
+Theorem only_accept_or_reject_refuted :
+  exists t, build [None; Some 0%nat] (fun i => if Nat.eqb i 4 then 0%nat else 1%nat) f9_conns = BOk t /\
+            cycle_check 1000 (t_indel t) [0; 1; 2; 3; 4]%nat = CycIncomparable /\
+            cycle_check 1000 (t_indel t) [4; 3; 2; 1; 0]%nat = CycIncomparable.
+Proof. eexists. split; [vm_compute; reflexivity|]. split; vm_compute; reflexivity. Qed.
